@@ -39,6 +39,7 @@ type RecvCase struct {
 
 func runRecv(c RecvCase) *evid.Failure {
 	env := rawpeer.NewEnv(c.Env)
+	defer env.Close()
 	l, s, p, err := env.Passive(80, 50000, c.ISS, rawpeer.SynOpts{MSS: 1460, WS: c.WS, TS: c.TS, SACKPerm: c.Env.SACK}, 65535)
 	if l != nil {
 		defer l.EP.Close()
@@ -222,6 +223,7 @@ type SendCase struct {
 
 func runSend(c SendCase) *evid.Failure {
 	env := rawpeer.NewEnv(c.Env)
+	defer env.Close()
 	// the stack is the active opener so that H2 can place its ISS
 	cs, serr := netsim.NewSock(env.Stack, 6, env.Net())
 	if serr != nil {
